@@ -492,7 +492,10 @@ def gen_prox_case(rng, tier):
     pts = [[rng.randint(0, int(L / u)) * u for _ in range(ndim)] for _ in range(n)]
     if rng.random() < 0.3 and n > 2:
         pts[rng.randrange(n)] = list(pts[rng.randrange(n)])
-    return dict(ndim=ndim, pts=pts, particle=rng.random() < 0.4)
+    # the frame's own index: fresh 0..n-1, the labels a frame keeps when it is cut out of a larger table (arbitrary, not
+    # in order), or repeated labels (every row indexed by its frame number)
+    return dict(ndim=ndim, pts=pts, particle=rng.random() < 0.5, index=rng.choice(['range', 'range', 'cut', 'shuffled', 'frame']),
+                iseed=rng.randint(0, 2 ** 30))
 
 
 def run_prox_impl(c):
@@ -501,8 +504,19 @@ def run_prox_impl(c):
     df = pd.DataFrame({nm: [p[k] for p in c['pts']] for k, nm in enumerate(names)})
     if c['particle']:
         df['particle'] = [3 * i + 1 for i in range(len(df))]
+    how = c.get('index', 'range')
+    ir = random.Random(c.get('iseed', 0))
+    if how == 'cut':
+        df.index = sorted(ir.sample(range(0, 5 * len(df) + 5), len(df)))
+    elif how == 'shuffled':
+        lab = list(range(len(df))); ir.shuffle(lab); df.index = lab
+    elif how == 'frame':
+        df.index = [7] * len(df)
     r = tp.proximity(df, pos_columns=names)
-    idx_ok = (not c['particle']) or list(r.index) == list(df['particle'])
+    # row k of the result belongs to row k of the frame: indexed by that row's particle id when there is one
+    idx_ok = (not c['particle']) or (len(r) == len(df) and list(r.index) == list(df['particle']))
+    if len(r) != len(df):
+        raise AssertionError('proximity returned %d rows for %d features' % (len(r), len(df)))
     return [float(v) for v in r['proximity'].values], idx_ok
 
 
